@@ -326,8 +326,8 @@ V("c12-token-module-as-dict", "C12", "break", "R12.6", "JWS compact serializatio
 V("c12-pem-public-branch-private", "C12", "break", "R12.7", "as_bytes(private=False) dumps the raw (private) key",
   "rfc7517/pem.py", "            return dump_pem_key(key.public_key, encoding, private, password)", "            return dump_pem_key(key.raw_value, encoding, key.is_private, password)")
 V("c12-ec-public-export-d", "C12", "break", "R12.3", "EC export_public_key includes d when available",
-  "rfc7518/ec_key.py", "        numbers = key.public_numbers()\n        return {\n            \"crv\": cls._curves_dss[numbers.curve.name],\n            \"x\": int_to_base64(numbers.x),\n            \"y\": int_to_base64(numbers.y),\n        }",
-  "        numbers = key.public_numbers()\n        rv = {\n            \"crv\": cls._curves_dss[numbers.curve.name],\n            \"x\": int_to_base64(numbers.x),\n            \"y\": int_to_base64(numbers.y),\n        }\n        if hasattr(key, \"private_numbers\"):\n            rv[\"d\"] = int_to_base64(key.private_numbers().private_value)\n        return rv")
+  "rfc7518/ec_key.py", "        return {\n            \"crv\": cls._curves_dss[numbers.curve.name],\n            \"x\": _coordinate_to_base64(numbers.x, size),\n            \"y\": _coordinate_to_base64(numbers.y, size),\n        }\n\n\nclass ECKey",
+  "        rv = {\n            \"crv\": cls._curves_dss[numbers.curve.name],\n            \"x\": _coordinate_to_base64(numbers.x, size),\n            \"y\": _coordinate_to_base64(numbers.y, size),\n        }\n        if hasattr(key, \"private_numbers\"):\n            rv[\"d\"] = _coordinate_to_base64(key.private_numbers().private_value, size)\n        return rv\n\n\nclass ECKey")
 V("c12-benign-filter-comprehension-like", "C12", "benign", "", "filter iterates a list copy of the keys",
   "rfc7517/models.py", "        for k in self.dict_value:\n            if k in self.value_registry and self.value_registry[k].private:", "        for k in list(self.dict_value):\n            if k in self.value_registry and self.value_registry[k].private:")
 V("c12-benign-okp-export-local", "C12", "benign", "", "OKP export_public_key assigns the dict to a local first",
@@ -351,7 +351,21 @@ V("c16-header-not-dict", "C16", "break", "E2a", "compact JWS header container ch
 V("c16-json-member-not-dict", "C16", "break", "E2a", "JSON JWS protected header stored unchecked",
   "rfc7515/json.py", "        protected = json_b64decode(protected_segment)\n        if not isinstance(protected, dict):\n            raise DecodeError(\"Invalid header\")\n        member.protected = protected", "        member.protected = json_b64decode(protected_segment)")
 V("c16-crit-unchecked", "C16", "break", "E2b", "crit iterated without a type check",
-  "registry.py", "        if not isinstance(header[\"crit\"], list):\n            raise ValueError('\"crit\" in header must be a list[str]')\n", "")
+  "registry.py", "        is_list_str(header[\"crit\"])\n        for k in header[\"crit\"]:", "        for k in header[\"crit\"]:")
+V("c16-crit-list-only", "C16", "break", "E2e", "crit checked to be a list but its members are not checked to be strings",
+  "registry.py", "        is_list_str(header[\"crit\"])\n        for k in header[\"crit\"]:", "        if not isinstance(header[\"crit\"], list):\n            raise ValueError('\"crit\" in header must be a list[str]')\n        for k in header[\"crit\"]:")
+V("c01-signing-input-other-payload", "C01", "break", "R01.7", "RFC7797 compact verification signs over the received payload segment when present, returns obj.payload",
+  "rfc7797/compact.py", "    signing_input = obj.segments[\"header\"] + b\".\" + obj.payload\n    sig = urlsafe_b64decode(obj.segments[\"signature\"])\n    if not alg.verify",
+  "    payload_segment = obj.segments[\"payload\"] or obj.payload\n    signing_input = obj.segments[\"header\"] + b\".\" + payload_segment\n    sig = urlsafe_b64decode(obj.segments[\"signature\"])\n    if not alg.verify")
+V("c17-exceeded-on-compressed-length", "C17", "break", "R17.6", "ExceededSizeError raised from the compressed length before anything is inflated",
+  "rfc7518/jwe_zips.py", "        if s.startswith(GZIP_HEAD):\n            decompressor = zlib.decompressobj()",
+  "        if len(s) > MAX_SIZE:\n            raise ExceededSizeError(f\"Decompressed string exceeds {MAX_SIZE} bytes\")\n        if s.startswith(GZIP_HEAD):\n            decompressor = zlib.decompressobj()")
+V("c17-gate-and", "C17", "break", "R17.2", "limit gate requires both pending input and pending output",
+  "rfc7518/jwe_zips.py", "exceeded = decompressor.unconsumed_tail or decompressor.decompress(b\"\", 1)", "exceeded = decompressor.unconsumed_tail and decompressor.decompress(b\"\", 1)")
+V("c02-cek-keep-first-len-only", "C02", "break", "R02.7", "CEK set replaced by keep-first with a comparison that only fires on different lengths",
+  "rfc7516/message.py", '    cek_set = set()\n    for recipient in obj.recipients:\n        headers = recipient.headers()\n        registry.check_header(headers, True)\n        # Step 6, Determine the Key Management Mode employed by the algorithm\n        # specified by the "alg" (algorithm) Header Parameter.\n        alg = registry.get_alg(headers["alg"])\n        try:\n            cek = decrypt_recipient(alg, enc, recipient, tag)\n            cek_set.add(cek)\n        except (AssertionError, JoseError) as error:\n            if registry.verify_all_recipients:\n                raise error\n\n    if not cek_set:\n        raise DecodeError(\'Invalid recipients\')\n\n    if len(cek_set) > 1:  # pragma: no cover\n        raise DecodeError(\'Multiple "cek" found\')\n\n    cek = cek_set.pop()\n', '    cek: bytes = b""\n    for recipient in obj.recipients:\n        headers = recipient.headers()\n        registry.check_header(headers, True)\n        alg = registry.get_alg(headers["alg"])\n        try:\n            recipient_cek = decrypt_recipient(alg, enc, recipient, tag)\n        except (AssertionError, JoseError) as error:\n            if registry.verify_all_recipients:\n                raise error\n            continue\n\n        if not cek:\n            cek = recipient_cek\n        elif len(recipient_cek) != len(cek) and recipient_cek != cek:\n            raise DecodeError(\'Multiple "cek" found\')\n\n    if not cek:\n        raise DecodeError(\'Invalid recipients\')\n\n')
+V("c02-benign-cek-keep-first", "C02", "benign", "", "CEK set replaced by keep-first-and-compare (correct comparison)",
+  "rfc7516/message.py", '    cek_set = set()\n    for recipient in obj.recipients:\n        headers = recipient.headers()\n        registry.check_header(headers, True)\n        # Step 6, Determine the Key Management Mode employed by the algorithm\n        # specified by the "alg" (algorithm) Header Parameter.\n        alg = registry.get_alg(headers["alg"])\n        try:\n            cek = decrypt_recipient(alg, enc, recipient, tag)\n            cek_set.add(cek)\n        except (AssertionError, JoseError) as error:\n            if registry.verify_all_recipients:\n                raise error\n\n    if not cek_set:\n        raise DecodeError(\'Invalid recipients\')\n\n    if len(cek_set) > 1:  # pragma: no cover\n        raise DecodeError(\'Multiple "cek" found\')\n\n    cek = cek_set.pop()\n', '    cek: bytes = b""\n    for recipient in obj.recipients:\n        headers = recipient.headers()\n        registry.check_header(headers, True)\n        alg = registry.get_alg(headers["alg"])\n        try:\n            recipient_cek = decrypt_recipient(alg, enc, recipient, tag)\n        except (AssertionError, JoseError) as error:\n            if registry.verify_all_recipients:\n                raise error\n            continue\n\n        if not cek:\n            cek = recipient_cek\n        elif recipient_cek != cek:\n            raise DecodeError(\'Multiple "cek" found\')\n\n    if not cek:\n        raise DecodeError(\'Invalid recipients\')\n\n')
 V("c16-gate-untyped", "C16", "break", "E2c", "JWE gate without the str check",
   "rfc7516/registry.py", "        if not isinstance(name, str) or name not in registry:", "        if name not in registry:")
 V("c16-json-enc-optional", "C16", "break", "E2c", "JSON JWE extractor no longer requires enc",
